@@ -1379,6 +1379,133 @@ def b_z_coordinates(S):
     return out
 
 
+def b_validation_caches(S):
+    """the per-object caches of `Validation` (node tuples from `determine_general_nodes`, V-node set, faulty-junction set): every cache starts as None, is
+    filled at the first access -- the two node SETS only while `determine_validation_nodes` is on, which `run_validation` switches per pass from the chosen
+    validators --, from `self.traces` as it is at that moment, and is never reset; `self.traces` becomes the fixed frame between the passes. Instantiated from
+    the checked shapes into functions over the cache record."""
+    tree = ast.parse(S[TVAL])
+    cls = find_func(tree, "Validation")
+
+    def norm(node):
+        return " ".join(ast.unparse(node).split())
+
+    def canon(text):
+        """the unparser's own rendering of a statement / expression given as text (independent of the Python version's parenthesisation)"""
+        return norm(ast.parse(text).body[0])
+
+    def method(name):
+        for st in cls.body:
+            if isinstance(st, ast.FunctionDef) and st.name == name:
+                return [b for b in st.body if not (isinstance(b, ast.Expr) and isinstance(b.value, ast.Constant))]
+        raise Untranslatable(f"Validation.{name} not found")
+
+    post = " ; ".join(norm(b) for b in method("__post_init__"))
+    for c in ("_endpoint_nodes", "_intersect_nodes", "_spatial_index", "_faulty_junctions", "_vnodes"):
+        if not re.search(r"self\." + c + r": [^;]*= None", post):
+            raise Untranslatable(f"__post_init__ does not start {c} as None")
+    sg = method("set_general_nodes")
+    if len(sg) != 1 or norm(sg[0]) != canon("self._intersect_nodes, self._endpoint_nodes = determine_general_nodes(self.traces.reset_index(drop=True))"):
+        raise Untranslatable("set_general_nodes is not `self._intersect_nodes, self._endpoint_nodes = determine_general_nodes(self.traces.reset_index(drop=True))`: " + norm(sg[0]))
+    for nm in ("endpoint_nodes", "intersect_nodes"):
+        b = method(nm)
+        if [norm(x) for x in b[:1]] != [f"if self._{nm} is None: self.set_general_nodes()".replace(": ", ":\n    ")] and not (
+                isinstance(b[0], ast.If) and norm(b[0].test) == f"self._{nm} is None" and [norm(x) for x in b[0].body] == ["self.set_general_nodes()"] and not b[0].orelse):
+            raise Untranslatable(f"{nm}: the cache is not filled by set_general_nodes() under `is None`")
+        if not (isinstance(b[1], ast.If) and norm(b[1].test) == f"self._{nm} is not None" and [norm(x) for x in b[1].body] == [f"return self._{nm}"]):
+            raise Untranslatable(f"{nm}: does not return its cache")
+    v = method("vnodes")
+    okv = (len(v) == 2 and isinstance(v[0], ast.If) and norm(v[0].test) == "self._vnodes is None and self.determine_validation_nodes" and not v[0].orelse and len(v[0].body) == 1
+           and norm(v[0].body[0]) == "self._vnodes = trace_validators.VNodeValidator.determine_v_nodes(endpoint_nodes=self.endpoint_nodes, snap_threshold=self.SNAP_THRESHOLD, snap_threshold_error_multiplier=self.SNAP_THRESHOLD_ERROR_MULTIPLIER)"
+           and norm(v[1]) == "return self._vnodes")
+    if not okv:
+        raise Untranslatable("vnodes: not `if self._vnodes is None and self.determine_validation_nodes: self._vnodes = determine_v_nodes(endpoint_nodes=self.endpoint_nodes, ..); return self._vnodes`")
+    j = method("faulty_junctions")
+    okj = (len(j) == 2 and isinstance(j[0], ast.If) and norm(j[0].test) == "self._faulty_junctions is None and self.determine_validation_nodes" and not j[0].orelse and len(j[0].body) == 2
+           and norm(j[0].body[0]) == canon("all_nodes = [tuple(chain(first, second)) for first, second in zip(self.intersect_nodes, self.endpoint_nodes)]")
+           and norm(j[0].body[1]) == "self._faulty_junctions = MultiJunctionValidator.determine_faulty_junctions(all_nodes, snap_threshold=self.SNAP_THRESHOLD, snap_threshold_error_multiplier=self.SNAP_THRESHOLD_ERROR_MULTIPLIER)"
+           and norm(j[1]) == "return self._faulty_junctions")
+    if not okj:
+        raise Untranslatable("faulty_junctions: shape changed")
+    # nothing else writes the caches
+    writers = {}
+    for st in cls.body:
+        if isinstance(st, ast.FunctionDef):
+            for n in ast.walk(st):
+                tg = []
+                if isinstance(n, ast.Assign):
+                    tg = n.targets
+                elif isinstance(n, (ast.AnnAssign, ast.AugAssign)):
+                    tg = [n.target]
+                for t in tg:
+                    for leaf in (t.elts if isinstance(t, ast.Tuple) else [t]):
+                        txt = norm(leaf)
+                        if txt in ("self._vnodes", "self._faulty_junctions", "self._endpoint_nodes", "self._intersect_nodes", "self.determine_validation_nodes"):
+                            writers.setdefault(txt, set()).add(st.name)
+    want = {"self._vnodes": {"__post_init__", "vnodes"}, "self._faulty_junctions": {"__post_init__", "faulty_junctions"},
+            "self._endpoint_nodes": {"__post_init__", "set_general_nodes"}, "self._intersect_nodes": {"__post_init__", "set_general_nodes"},
+            "self.determine_validation_nodes": {"run_validation"}}
+    if writers != want:
+        raise Untranslatable(f"the caches / the flag are written elsewhere: {writers}")
+    rv = method("run_validation")
+    texts = [norm(x) for x in rv]
+    flag = "self.determine_validation_nodes = any((validator in VALIDATION_REQUIRES_NODES for validator in validators))"
+    if texts.count(flag) != 1:
+        raise Untranslatable("run_validation does not set determine_validation_nodes from the validators of the pass (exactly once)")
+    i_flag = texts.index(flag)
+    i_val = next((i for i, t in enumerate(texts) if t.startswith("validators = MAJOR_VALIDATORS if first_pass else ALL_VALIDATORS")), None)
+    i_loop = next((i for i, x in enumerate(rv) if isinstance(x, ast.For) and norm(x.target).strip("()") == "idx, geom"), None)
+    if i_val is None or i_loop is None or not (i_val < i_flag < i_loop):
+        raise Untranslatable("run_validation: the flag is not set between the choice of validators and the row loop")
+    loop_txt = norm(rv[i_loop])
+    if "vnodes=self.vnodes" not in loop_txt or "faulty_junctions=self.faulty_junctions" not in loop_txt:
+        raise Untranslatable("the row loop does not pass vnodes=self.vnodes / faulty_junctions=self.faulty_junctions to _validate")
+    fp = [x for x in rv if isinstance(x, ast.If) and norm(x.test) == "first_pass"]
+    if len(fp) != 1 or [norm(x) for x in fp[0].body] != ["self.traces = validated_gdf", "validated_gdf = self.run_validation(first_pass=False, choose_validators=choose_validators)"]:
+        raise Untranslatable("run_validation: between the passes `self.traces = validated_gdf` then the recursive call -- changed")
+    out = """/-- the caches of a `Validation` object: the node tuples of `determine_general_nodes`, the V-node set, the faulty-junction set -/
+structure ValCaches (GN NS : Type) where
+  general : Option GN := none
+  vnodes : Option NS := none
+  junctions : Option NS := none
+
+/-- `endpoint_nodes` / `intersect_nodes`: filled by `set_general_nodes()` from `self.traces` (as it is NOW) when empty -/
+def val_general {T GN NS : Type} (gen : T → GN) (traces : T) (c : ValCaches GN NS) : GN × ValCaches GN NS :=
+  match c.general with
+  | some g => (g, c)
+  | none => (gen traces, { c with general := some (gen traces) })
+
+/-- `vnodes`: computed only while `determine_validation_nodes` is on, from the (cached) node tuples; never recomputed -/
+def val_vnodes {T GN NS : Type} (gen : T → GN) (vn : GN → NS) (flag : Bool) (traces : T) (c : ValCaches GN NS) : Option NS × ValCaches GN NS :=
+  match c.vnodes with
+  | some v => (some v, c)
+  | none =>
+    if flag then
+      let (g, c) := val_general gen traces c
+      (some (vn g), { c with vnodes := some (vn g) })
+    else (none, c)
+
+def val_junctions {T GN NS : Type} (gen : T → GN) (fj : GN → NS) (flag : Bool) (traces : T) (c : ValCaches GN NS) : Option NS × ValCaches GN NS :=
+  match c.junctions with
+  | some v => (some v, c)
+  | none =>
+    if flag then
+      let (g, c) := val_general gen traces c
+      (some (fj g), { c with junctions := some (fj g) })
+    else (none, c)
+
+/-- one `_validate(...)` call evaluates `vnodes=self.vnodes, faulty_junctions=self.faulty_junctions` -/
+def val_access {T GN NS : Type} (gen : T → GN) (vn fj : GN → NS) (flag : Bool) (traces : T) (c : ValCaches GN NS) : (Option NS × Option NS) × ValCaches GN NS :=
+  let (v, c) := val_vnodes gen vn flag traces c
+  let (j, c) := val_junctions gen fj flag traces c
+  ((v, j), c)
+
+/-- `self.determine_validation_nodes = any(validator in VALIDATION_REQUIRES_NODES for validator in validators)`, set by run_validation for each pass -/
+def val_flag (requires : List String) (validators : List String) : Bool := validators.any fun v => requires.elem v
+"""
+    return out
+
+
 def b_dedupe(S):
     """`filter_non_unique_traces`: the key of a trace is its WKT at `int(-log10(snap))` decimals (a parameter of type K); the first trace with
     a key is kept, later ones with the same key are dropped, order preserved"""
@@ -2342,6 +2469,7 @@ ITEMS: List[Item] = [
     Item("CropPipeline", GENERAL, ["C07", "C04", "C14", "C18"], b_crop_pipeline, deps=["CropHelpers"]),
     Item("LineDataCache", LINEDATA, ["C08", "C15", "C11"], b_line_data, extra_modules=[GENERAL]),
     Item("ZCoordinates", GENERAL, ["C03", "C07", "C09", "C11"], b_z_coordinates),
+    Item("ValidationCaches", TVAL, ["C02", "C13"], b_validation_caches),
     Item("Cli", CLI, ["C19"], b_cli),
     Item("ErrorColumn", TVAL, ["C19", "C13"], b_error_column),
     Item("DetermineIntersect", REL, ["C12"], b_determine_intersect),
